@@ -132,6 +132,19 @@ def theorems_of(path: Path):
     return names
 
 
+def props_files(mod):
+    """Property-theorem files of a module: LEAN_PROPS plus optional LEAN_PROPS_EXTRA (e.g. translation-tie theorems)."""
+    return [mod.LEAN_PROPS] + list(getattr(mod, "LEAN_PROPS_EXTRA", []))
+
+
+def all_theorems(mod):
+    out = []
+    for f in props_files(mod):
+        if (LEAN / f).exists():
+            out += theorems_of(LEAN / f)
+    return out
+
+
 class Ctx:
     def __init__(self, mod, tier, seed):
         self.mod = mod
@@ -242,15 +255,14 @@ def audit(ctx: Ctx):
         src = strip_lean_comments(module_path(m).read_text())
         for mm in FORBIDDEN.finditer(src):
             hits.append(f"{m}: forbidden token {mm.group(0).strip()!r}")
-    props = LEAN / ctx.mod.LEAN_PROPS
-    ctx.theorems = theorems_of(props)
+    ctx.theorems = all_theorems(ctx.mod)
     if not ctx.theorems:
         hits.append("no theorems found in " + ctx.mod.LEAN_PROPS)
     adir = LEAN / ".audit"
     adir.mkdir(exist_ok=True)
-    modname = ctx.mod.LEAN_PROPS[:-5].replace("/", ".")
+    imports = "".join("import " + pf[:-5].replace("/", ".") + "\n" for pf in props_files(ctx.mod))
     f = adir / f"{ctx.prop}_{os.getpid()}.lean"     # per process: concurrent runs of one property must not race
-    f.write_text(f"import {modname}\n" + "".join(f"#print axioms {t}\n" for t in ctx.theorems))
+    f.write_text(imports + "".join(f"#print axioms {t}\n" for t in ctx.theorems))
     try:
         rc, out = ctx.lean_run(f".audit/{f.name}")
     finally:
@@ -356,8 +368,7 @@ def run(mod, tier, seed, replay=None):
         # 2. prove
         ok, log = ctx.lake_build(mod.LEAN_TARGETS)
         ctx.build_ok = ok
-        props = LEAN / mod.LEAN_PROPS
-        ctx.theorems = theorems_of(props)
+        ctx.theorems = all_theorems(mod)
         obligations = len(ctx.theorems)
         if not ok:
             bt = broken_theorems(log)
